@@ -63,10 +63,29 @@ def is_empty_path(res) -> bool:
         k = e.get("key") or ""
         if not _EMPTY_KEY.match(k) or "(&:" in k:
             continue
+        if "._transform." not in e["function"]:
+            continue  # an early return of the entry point itself is not "nothing to do": it skips stages that do not depend on that collection
         truth = bool(e["outcome"]) ^ bool(e.get("key_neg"))
         if (k.startswith("Eq:len") and truth) or (k.startswith("nonempty?") and not truth):
             return True
     return False
+
+
+def empty_atoms(res) -> set:
+    """Key collections (atoms) that some test on this path decided to be empty — wherever the test is written."""
+    out = set()
+    for e in res.events:
+        if e["kind"] != "decision" or e.get("outcome") is None:
+            continue
+        k = e.get("key") or ""
+        if not k.startswith("nonempty?") or "(&:" in k:
+            continue
+        if not (bool(e["outcome"]) ^ bool(e.get("key_neg"))):
+            txt = k[len("nonempty?"):]
+            out.add(txt)
+            for a in txt.split("+"):
+                out.add(a)
+    return out
 
 
 def main_paths(run: Run):
